@@ -33,7 +33,7 @@ type Scenario struct {
 	Target  string `json:"target"`  // where the re-entrant Send goes: other (a plain pipeline), self (the same pipeline / filter), none (no pipeline)
 	Parked  bool   `json:"parked"`  // a writer is started while the callback runs and the callback waits for it to be parked
 	Depth   int    `json:"depth"`   // recursion depth of re-entrant Sends from Process
-	InStmt  bool   `json:"in_statement"` // false: outside C12's statement (Reopen re-entry behind a parked writer) -- observed only
+	InStmt  bool   `json:"in_statement"` // false: outside C12's statement -- observed only (no scenario is any more)
 	Comment string `json:"comment,omitempty"`
 }
 
@@ -427,7 +427,7 @@ func otherOp(b *el.Broker, op string) error {
 // ---------- the scenario space ----------
 func allScenarios(r *hc.Rand, repeat int) []Scenario {
 	var out []Scenario
-	add := func(s Scenario) { s.InStmt = !(s.Kind == "reenter-reopen" && s.Parked); out = append(out, s) }
+	add := func(s Scenario) { s.InStmt = true; out = append(out, s) }
 	for rep := 0; rep < repeat; rep++ {
 		for _, parked := range []bool{false, true} {
 			// a node re-entering Send from Process: depth 1..3, into another pipeline or into its own
@@ -442,7 +442,7 @@ func allScenarios(r *hc.Rand, repeat int) []Scenario {
 					add(Scenario{Kind: "reenter-close", Op: op, Target: tgt, Parked: parked})
 				}
 			}
-			// a node re-entering Send from Reopen (with a parked writer: outside the statement, observed only)
+			// a node re-entering Send from Reopen, with and without a writer parked on the lock
 			add(Scenario{Kind: "reenter-reopen", Op: "Reopen", Target: "other", Parked: parked})
 			// every other operation issued while a re-entrant Send is in flight
 			for _, op := range []string{"RegisterNode", "RegisterPipeline", "RemovePipeline", "SetSuccessThreshold", "SetSuccessThresholdSinks",
